@@ -59,17 +59,13 @@ static emval em_valtok(Janet x) {
     return em_mk(T_VAL | ((uint32_t) x.type << 8), x.as.u64);
 }
 
-/* registers: a write log over the initial contents */
+/* registers: a write log over the initial contents; entry k belongs to the k-th executed instruction (-1: no register written) */
 #define EM_LOG 12
-static int32_t em_wreg[EM_LOG]; static emval em_wval[EM_LOG]; static int em_nw;
+static int32_t em_wreg[EM_LOG]; static emval em_wval[EM_LOG]; static int em_step_no;
 static emval em_read(int32_t r) {
     emval v = em_mk(T_REG0, (uint64_t)(uint32_t) r);
-    for (int k = 0; k < EM_LOG; k++) if (k < em_nw && em_wreg[k] == r) v = em_wval[k];
+    for (int k = 0; k < EM_LOG; k++) if (em_wreg[k] == r) v = em_wval[k];
     return v;
-}
-static void em_write(int32_t r, emval v) {
-    __CPROVER_assert(em_nw < EM_LOG, "harness: register write log suffices");
-    if (em_nw < EM_LOG) { em_wreg[em_nw] = r; em_wval[em_nw] = v; em_nw++; }
 }
 /* upvalues and reference cells: number of writes and the last one */
 static int em_upw_n; static uint32_t em_upw_e, em_upw_i; static emval em_upw_v;
@@ -106,33 +102,42 @@ void em_loadconst_stub(JanetCompiler *c, Janet k, int32_t reg) {
 
 /* ------------------------------------------------------------------ the abstract machine */
 static int em_bad_instr;
-static void em_exec(uint32_t w) {
+/* executes instruction w as step number em_step_no (a concrete number at every call site). is_main: w is the requested
+ * instruction, which - as far as this contract goes - writes RESULT to its first operand field f0 when wr is set. */
+static void em_exec_at(int step, uint32_t w, int is_main, int wr, uint32_t f0) {
     uint32_t op = w & 0xFF, A = (w >> 8) & 0xFF, B = (w >> 16) & 0xFF, C = w >> 24, D = w >> 8, E = w >> 16;
-    if (op == JOP_MOVE_NEAR) em_write((int32_t) A, em_read((int32_t) E));
-    else if (op == JOP_MOVE_FAR) em_write((int32_t) E, em_read((int32_t) A));
-    else if (op == JOP_LOAD_CONSTANT) em_write((int32_t) A, em_const_at(E));
-    else if (op == JOP_LOAD_UPVALUE) em_write((int32_t) A, em_up_read(B, C));
-    else if (op == JOP_SET_UPVALUE) { em_upw_v = em_read((int32_t) A); em_upw_e = B; em_upw_i = C; em_upw_n++; }
+    /* one register read (two for PUT_INDEX), at most one register write per instruction */
+    int32_t rd = (op == JOP_MOVE_NEAR) ? (int32_t) E : (op == JOP_GET_INDEX) ? (int32_t) B : (int32_t) A;
+    emval v1 = em_read(rd);
+    int32_t wreg = -1; emval wv = em_mk(T_BAD, 0);
+    if (is_main) { if (wr) { wreg = (int32_t) f0; wv = em_mk(T_RESULT, 0); } }
+    else if (op == JOP_MOVE_NEAR) { wreg = (int32_t) A; wv = v1; }
+    else if (op == JOP_MOVE_FAR) { wreg = (int32_t) E; wv = v1; }
+    else if (op == JOP_LOAD_CONSTANT) { wreg = (int32_t) A; wv = em_const_at(E); }
+    else if (op == JOP_LOAD_UPVALUE) { wreg = (int32_t) A; wv = em_up_read(B, C); }
+    else if (op == JOP_SET_UPVALUE) { em_upw_v = v1; em_upw_e = B; em_upw_i = C; em_upw_n++; }
     else if (op == JOP_GET_INDEX) {
-        emval ds = em_read((int32_t) B);
-        em_write((int32_t) A, (ds.tag == (T_VAL | ((uint32_t) JANET_ARRAY << 8)) && C == 0) ? em_cell_read(ds.bits) : em_mk(T_BAD, 2));
+        wreg = (int32_t) A;
+        wv = (v1.tag == (T_VAL | ((uint32_t) JANET_ARRAY << 8)) && C == 0) ? em_cell_read(v1.bits) : em_mk(T_BAD, 2);
     } else if (op == JOP_PUT_INDEX) {
-        emval ds = em_read((int32_t) A);
-        if (ds.tag == (T_VAL | ((uint32_t) JANET_ARRAY << 8)) && C == 0) { em_cellw_v = em_read((int32_t) B); em_cellw_a = ds.bits; em_cellw_n++; }
+        if (v1.tag == (T_VAL | ((uint32_t) JANET_ARRAY << 8)) && C == 0) { em_cellw_v = em_read((int32_t) B); em_cellw_a = v1.bits; em_cellw_n++; }
         else em_bad_instr = 1;
     }
 #ifdef EM_REAL_LOADCONST
-    else if (op == JOP_LOAD_NIL) em_write((int32_t) D, em_mk(T_NIL, 0));
-    else if (op == JOP_LOAD_TRUE) em_write((int32_t) D, em_mk(T_BOOL, 1));
-    else if (op == JOP_LOAD_FALSE) em_write((int32_t) D, em_mk(T_BOOL, 0));
+    else if (op == JOP_LOAD_NIL) { wreg = (int32_t) D; wv = em_mk(T_NIL, 0); }
+    else if (op == JOP_LOAD_TRUE) { wreg = (int32_t) D; wv = em_mk(T_BOOL, 1); }
+    else if (op == JOP_LOAD_FALSE) { wreg = (int32_t) D; wv = em_mk(T_BOOL, 0); }
     else if (op == JOP_LOAD_INTEGER) {
         union { double d; uint64_t u; } cv;
-        cv.d = (double)((int32_t) w >> 16);          /* janet_wrap_integer(ES) */
-        em_write((int32_t) A, em_mk(T_NUM, cv.u));
+        int32_t es = (int32_t) E - ((E & 0x8000u) ? 0x10000 : 0);          /* ES: the signed reading of the 16-bit field */
+        cv.d = (double) es;                                                /* janet_wrap_integer(ES) */
+        wreg = (int32_t) A; wv = em_mk(T_NUM, cv.u);
     }
 #endif
     else em_bad_instr = 1;
+    em_wreg[step] = wreg; em_wval[step] = wv;
 }
+#define em_exec(step, w) em_exec_at((step), (w), 0, 0, 0)
 
 /* ------------------------------------------------------------------ operand slots */
 #ifndef EM_MAXUP
@@ -236,7 +241,8 @@ static void em_init(int nops) {
     em_c.scope = &em_scope;
     em_c.current_mapping.line = nd_i32(); em_c.current_mapping.column = nd_i32();
     for (int i = 0; i < EM_PRE; i++) janetc_emit(&em_c, nd_u32());
-    em_errors = 0; em_nw = 0; em_upw_n = 0; em_cellw_n = 0; em_nconst = 0; em_nown = 0; em_held = 0; em_bad_instr = 0;
+    em_errors = 0; for (int k = 0; k < EM_LOG; k++) em_wreg[k] = -1;
+    em_upw_n = 0; em_cellw_n = 0; em_nconst = 0; em_nown = 0; em_held = 0; em_bad_instr = 0;
     em_const_may_fail = nd_int() & 1;
     em_nops = nops;
     for (int j = 0; j < 3; j++) if (j < nops) { em_s[j] = em_mkslot(); em_sv0[j] = em_slotval(em_s[j]); }
@@ -277,7 +283,7 @@ static void em_check(int32_t label, uint8_t op, int shape, uint32_t immfield) {
         int32_t idx = EM_PRE + k;
         if (idx < n) {
             uint32_t w = em_c.buffer[idx];
-            if (idx != label) { em_exec(w); continue; }
+            if (idx != label) { em_exec(k, w); continue; }
             /* the requested instruction */
             uint32_t f[3]; f[0] = (w >> 8) & 0xFF; f[1] = (w >> 16) & 0xFF; f[2] = w >> 24;
             if (shape == SH_S) f[0] = w >> 8;
@@ -287,37 +293,45 @@ static void em_check(int32_t label, uint8_t op, int shape, uint32_t immfield) {
             if (shape == SH_SSX) __CPROVER_assert((w >> 24) == immfield, "comp.emit: the 8-bit immediate is encoded unchanged");
             for (int j = 0; j < 3; j++) if (j < em_nops && !(j == 0 && em_wr))
                 __CPROVER_assert(em_eq(em_read((int32_t) f[j]), em_sv0[j]), "comp.emit: each source operand field names a register holding its slot's value when the instruction executes");
-            if (em_wr) em_write((int32_t) f[0], em_mk(T_RESULT, 0));
+            em_exec_at(k, w, 1, em_wr, f[0]);
         }
     }
     if (em_wr) {
         __CPROVER_assert(em_eq(em_slotval(em_s[0]), em_mk(T_RESULT, 0)), "comp.emit: the written result reaches the destination slot");
-        REACH("emit: written destination");
     }
     for (int j = 0; j < 3; j++) if (j < em_nops && !(em_wr && (j == 0 || em_same_place(em_s[j], em_s[0]))))
         __CPROVER_assert(em_eq(em_slotval(em_s[j]), em_sv0[j]), "comp.emit: source slots keep their values");
     em_frame_checks();
     if (n - EM_PRE > 1) REACH("emit: operands were moved");
-    if (em_nops > 0 && em_is_local(em_s[0]) && em_s[0].index > 0xFF && em_wr && shape != SH_S) REACH("emit: far destination written back");
     REACH("emit: normal return");
 }
+#define EM_REACH_WR() do { if (!em_errors && em_wr) { REACH("emit: written destination"); if (em_is_local(em_s[0]) && em_s[0].index > 0xFF) REACH("emit: far destination written back"); \
+                                                      if (em_is_upvalue(em_s[0])) REACH("emit: upvalue destination"); if (em_s[0].flags & JANET_SLOT_REF) REACH("emit: reference destination"); } } while (0)
 
 /* ------------------------------------------------------------------ entries: the public emitters */
 void h_emit_s(void) {
     em_init(1); uint8_t op = nd_u8();
+#ifndef EM_S_ANYDEST
+    /* requires: janetc_emit_s writes (wr) only local destinations - all its callers pass janetc_gettarget / janetc_farslot
+     * slots; the other kinds are comp.emit.s.wr-nonlocal */
+    if (em_wr) __CPROVER_assume(em_is_local(em_s[0]));
+#endif
     int32_t label = janetc_emit_s(&em_c, op, em_s[0], em_wr);
     em_check(label, op, SH_S, 0);
+    if (!em_errors && em_wr) REACH("emit: written destination");
 }
 void h_emit_si(void) {
     em_init(1); uint8_t op = nd_u8(); int16_t imm = (int16_t) nd_int();
     int32_t label = janetc_emit_si(&em_c, op, em_s[0], imm, em_wr);
     em_check(label, op, SH_SX, (uint32_t)(uint16_t) imm);
+    EM_REACH_WR();
     if (!em_errors) __CPROVER_assert(((int32_t) em_c.buffer[label] >> 16) == (int32_t) imm, "comp.emit: the interpreter's signed reading ES of the field gives the immediate back");
 }
 void h_emit_su(void) {
     em_init(1); uint8_t op = nd_u8(); uint16_t imm = (uint16_t) nd_uint();
     int32_t label = janetc_emit_su(&em_c, op, em_s[0], imm, em_wr);
     em_check(label, op, SH_SX, (uint32_t) imm);
+    EM_REACH_WR();
 }
 void h_emit_st(void) {
     em_init(1); uint8_t op = nd_u8(); int32_t tflags = nd_i32();
@@ -330,22 +344,26 @@ void h_emit_ss(void) {
     em_init(2); uint8_t op = nd_u8();
     int32_t label = janetc_emit_ss(&em_c, op, em_s[0], em_s[1], em_wr);
     em_check(label, op, SH_SS, 0);
+    EM_REACH_WR();
 }
 void h_emit_ssi(void) {
     em_init(2); uint8_t op = nd_u8(); int8_t imm = (int8_t) nd_int();
     int32_t label = janetc_emit_ssi(&em_c, op, em_s[0], em_s[1], imm, em_wr);
     em_check(label, op, SH_SSX, (uint32_t)(uint8_t) imm);
+    EM_REACH_WR();
     if (!em_errors) __CPROVER_assert(((int32_t) em_c.buffer[label] >> 24) == (int32_t) imm, "comp.emit: the interpreter's signed reading CS of the field gives the immediate back");
 }
 void h_emit_ssu(void) {
     em_init(2); uint8_t op = nd_u8(); uint8_t imm = nd_u8();
     int32_t label = janetc_emit_ssu(&em_c, op, em_s[0], em_s[1], imm, em_wr);
     em_check(label, op, SH_SSX, (uint32_t) imm);
+    EM_REACH_WR();
 }
 void h_emit_sss(void) {
     em_init(3); uint8_t op = nd_u8();
     int32_t label = janetc_emit_sss(&em_c, op, em_s[0], em_s[1], em_s[2], em_wr);
     em_check(label, op, SH_SSS, 0);
+    EM_REACH_WR();
 }
 /* janetc_emit_sl(op, s, label): a conditional jump on s whose target is the instruction with index `label` */
 void h_emit_sl(void) {
@@ -368,7 +386,7 @@ void h_copy(void) {
     em_init(2);
     em_wr = 0;
     JanetSlot dest = em_s[0], src = em_s[1];
-    int same = em_same_place(dest, src) || ((dest.flags & JANET_SLOT_CONSTANT) && (src.flags & JANET_SLOT_CONSTANT) && em_eq(em_sv0[0], em_sv0[1]));
+    int same = em_same_place(dest, src) && ((dest.flags ^ src.flags) & ~(uint32_t) JANET_SLOTTYPE_ANY) == 0;      /* the same slot */
     janetc_copy(&em_c, dest, src);
     int32_t n = janet_v_count(em_c.buffer);
     __CPROVER_assert(janet_v_count(em_c.mapbuffer) == n, "comp.emit: every instruction gets its source mapping");
@@ -379,7 +397,7 @@ void h_copy(void) {
     }
     if (em_errors) { REACH("copy: compile error reported"); return; }
     __CPROVER_assert(n - EM_PRE <= EM_MAXSEQ, "harness: sequence bound suffices");
-    for (int k = 0; k < EM_MAXSEQ; k++) if (EM_PRE + k < n) em_exec(em_c.buffer[EM_PRE + k]);
+    for (int k = 0; k < EM_MAXSEQ; k++) if (EM_PRE + k < n) em_exec(k, em_c.buffer[EM_PRE + k]);
     __CPROVER_assert(em_eq(em_slotval(dest), em_sv0[1]), "comp.copy: afterwards the destination holds the source's value");
     __CPROVER_assert(em_eq(em_slotval(src), em_sv0[1]), "comp.copy: the source keeps its value");
     if (same) { __CPROVER_assert(n == EM_PRE, "comp.copy: copying a slot onto itself emits nothing"); REACH("copy: same slot"); }
@@ -410,7 +428,7 @@ void h_movenear(void) {
     janetc_movenear(&em_c, dest, em_s[0]);
     int32_t n = janet_v_count(em_c.buffer);
     if (em_errors) { REACH("movenear: compile error reported"); return; }
-    for (int k = 0; k < 3; k++) if (EM_PRE + k < n) em_exec(em_c.buffer[EM_PRE + k]);
+    for (int k = 0; k < 3; k++) if (EM_PRE + k < n) em_exec(k, em_c.buffer[EM_PRE + k]);
     __CPROVER_assert(n - EM_PRE <= 3, "harness: sequence bound suffices");
     __CPROVER_assert(em_eq(em_read(dest), em_sv0[0]), "comp.movenear: the near register holds the slot's value");
     __CPROVER_assert(!em_bad_instr && em_upw_n == 0 && em_cellw_n == 0, "comp.movenear: only loads and moves; no upvalue or reference cell is written");
@@ -426,12 +444,13 @@ void h_moveback(void) {
     __CPROVER_assume(!(em_s[0].flags & JANET_SLOT_CONSTANT));
     int32_t src = nd_i32();
     __CPROVER_assume(src >= 0 && src <= 0xFF);
+    __CPROVER_assume(src != 0xF0 + JANETC_REGTEMP_5);      /* requires: not the reserved temporary of the tag moveback uses itself (callers hold tags 0..3) */
     em_extra_live = src;
     emval v0 = em_read(src);
     janetc_moveback(&em_c, em_s[0], src);
     int32_t n = janet_v_count(em_c.buffer);
     if (em_errors) { REACH("moveback: compile error reported"); return; }
-    for (int k = 0; k < 3; k++) if (EM_PRE + k < n) em_exec(em_c.buffer[EM_PRE + k]);
+    for (int k = 0; k < 3; k++) if (EM_PRE + k < n) em_exec(k, em_c.buffer[EM_PRE + k]);
     __CPROVER_assert(n - EM_PRE <= 3, "harness: sequence bound suffices");
     __CPROVER_assert(em_eq(em_slotval(em_s[0]), v0), "comp.moveback: the destination slot holds the register's value");
     __CPROVER_assert(em_eq(em_read(src), v0) || (em_is_local(em_s[0]) && em_s[0].index == src), "comp.moveback: the source register keeps its value");
@@ -448,7 +467,7 @@ void h_regnear(void) {
     int32_t r = janetc_regnear(&em_c, em_s[0], (JanetcRegisterTemp) tag);
     int32_t n = janet_v_count(em_c.buffer);
     if (em_errors) { REACH("regnear: compile error reported"); return; }
-    for (int k = 0; k < 3; k++) if (EM_PRE + k < n) em_exec(em_c.buffer[EM_PRE + k]);
+    for (int k = 0; k < 3; k++) if (EM_PRE + k < n) em_exec(k, em_c.buffer[EM_PRE + k]);
     __CPROVER_assert(n - EM_PRE <= 3, "harness: sequence bound suffices");
     __CPROVER_assert(r >= 0 && r <= 0xFF, "comp.regnear: the register fits an 8-bit operand field");
     __CPROVER_assert(em_eq(em_read(r), em_sv0[0]), "comp.regnear: the register holds the slot's value");
@@ -471,7 +490,7 @@ void h_regfar(void) {
     int32_t r = janetc_regfar(&em_c, em_s[0], (JanetcRegisterTemp) tag);
     int32_t n = janet_v_count(em_c.buffer);
     if (em_errors) { REACH("regfar: compile error reported"); return; }
-    for (int k = 0; k < 4; k++) if (EM_PRE + k < n) em_exec(em_c.buffer[EM_PRE + k]);
+    for (int k = 0; k < 4; k++) if (EM_PRE + k < n) em_exec(k, em_c.buffer[EM_PRE + k]);
     __CPROVER_assert(n - EM_PRE <= 4, "harness: sequence bound suffices");
     __CPROVER_assert(r >= 0 && r <= 0xFFFF, "comp.regfar: the register fits a 16-bit operand field");
     __CPROVER_assert(em_eq(em_read(r), em_sv0[0]), "comp.regfar: the register holds the slot's value");
@@ -509,7 +528,7 @@ void h_loadconst(void) {
     int32_t n = janet_v_count(em_c.buffer);
     __CPROVER_assert(n == EM_PRE + 1, "comp.loadconst: exactly one instruction");
     if (em_errors) { REACH("loadconst: compile error reported"); return; }
-    em_exec(em_c.buffer[EM_PRE]);
+    em_exec(0, em_c.buffer[EM_PRE]);
     __CPROVER_assert(!em_bad_instr, "comp.loadconst: a load instruction");
     __CPROVER_assert(em_eq(em_read(reg), em_valtok(k)), "comp.loadconst: the register holds exactly the constant");
     __CPROVER_assert(em_glive == reg || em_eq(em_read(em_glive), em_mk(T_REG0, (uint64_t)(uint32_t) em_glive)), "comp.loadconst: no other register changes");
